@@ -758,6 +758,215 @@ Proof.
   rewrite len_app. f_equal. now apply (ps_len fs ws).
 Qed.
 
+(* ================================================================== the converse law: Encode inverts Parse
+   [fmt_inj f]: whatever the decoder accepts, IF the value it yields is in the domain, is byte for byte what the
+   encoder writes for that value (on inputs that are bytes).  It holds for the formats whose decoder loses nothing:
+   not for a field trimmed on both sides (str_pad2), not for one cut at the first NUL (str_cut0: garbage after the NUL
+   is dropped), not for a tail that ignores trailing bytes, not for the parameter list (wire order is free). *)
+Definition fmt_inj {A} (f : fmt A) : Prop :=
+  forall l a r, bytes l -> dec f l = Ok (a, r) -> wf f a = true -> l = enc f a ++ r /\ bytes r.
+
+Lemma take_e_bytes n l a r : bytes l -> take_e n l = Ok (a, r) -> l = a ++ r /\ len a = n /\ bytes a /\ bytes r.
+Proof.
+  intros Hb H. destruct (take_e_inv _ _ _ _ H) as [-> L]. apply bytes_app in Hb. destruct Hb as [Ha Hr]. auto.
+Qed.
+
+Lemma ube_inj n : fmt_inj (ube n).
+Proof.
+  intros l a r Hb H _. cbn [enc dec wf ube] in *.
+  destruct (take_e (N.of_nat n) l) as [[b r']|e|] eqn:E; cbn [bind] in H; try discriminate H. inversion H; subst.
+  destruct (take_e_bytes _ _ _ _ Hb E) as (-> & L & Hbb & Hr). split; [|exact Hr]. f_equal.
+  assert (length b = n) as <- by (unfold len in L; lia). symmetry. now apply be_enc_dec.
+Qed.
+Lemma bytes_n_inj n : fmt_inj (bytes_n n).
+Proof.
+  intros l a r Hb H _. cbn [enc dec wf bytes_n] in *. destruct (take_e_bytes _ _ _ _ Hb H) as (-> & _ & _ & Hr). auto.
+Qed.
+
+Lemma trim_right0_length b : (length (trim_right0 b) <= length b)%nat.
+Proof.
+  induction b as [|c t IH]; cbn [trim_right0 length]; [lia|].
+  destruct (trim_right0 t) as [|x t'] eqn:E; [destruct (c =? 0)|]; cbn [length] in *; lia.
+Qed.
+Lemma trim_right0_pad b : trim_right0 b ++ repeat 0 (length b - length (trim_right0 b)) = b.
+Proof.
+  induction b as [|c t IH]; [reflexivity|]. pose proof (trim_right0_length t) as L. cbn [trim_right0].
+  destruct (trim_right0 t) as [|x t'] eqn:E.
+  - cbn [app length] in IH. rewrite Nat.sub_0_r in IH. destruct (c =? 0) eqn:Ec.
+    + apply N.eqb_eq in Ec. subst c. cbn [length app]. rewrite Nat.sub_0_r. cbn [repeat]. now rewrite IH.
+    + cbn [length app]. replace (S (length t) - 1)%nat with (length t) by lia. now rewrite IH.
+  - cbn [length app] in *. replace (S (length t) - S (S (length t')))%nat with (length t - S (length t'))%nat by lia.
+    now rewrite IH.
+Qed.
+Lemma fill_trim b : fill (trim_right0 b) (len b) = b.
+Proof.
+  pose proof (trim_right0_length b) as L. rewrite fill_fits by (unfold len; lia).
+  replace (N.to_nat (len b - len (trim_right0 b))) with (length b - length (trim_right0 b))%nat by (unfold len; lia).
+  apply trim_right0_pad.
+Qed.
+Lemma str_pad_inj n : fmt_inj (str_pad n).
+Proof.
+  intros l a r Hb H _. cbn [enc dec wf str_pad] in *.
+  destruct (take_e n l) as [[b r']|e|] eqn:E; cbn [bind] in H; try discriminate H. inversion H; subst.
+  destruct (take_e_bytes _ _ _ _ Hb E) as (-> & L & _ & Hr). split; [|exact Hr]. f_equal. rewrite <- L. symmetry. apply fill_trim.
+Qed.
+
+Lemma time_ok_bcd6 b : bytes b -> (len b =? 6) = true -> time_ok (bcd2time b) = true -> bcd6_ok b = true.
+Proof.
+  intros Hb Hl H. unfold bcd6_ok. rewrite Hl. cbn [andb].
+  destruct (len6_shape b Hl) as (b0 & b1 & b2 & b3 & b4 & b5 & ->).
+  unfold bcd2time, bcd_chars in H. cbn [flat_map app] in H. change (len [_; _; _; _; _; _] =? 6) with true in H. cbv iota in H.
+  cbn [time_ok forallb] in H. rewrite !N.eqb_refl in H. cbn [andb] in H.
+  repeat (apply andb_true_iff in H; destruct H as [? H]).
+  repeat match goal with B : bytes (_ :: _) |- _ => apply bytes_cons in B; destruct B as [? B] end.
+  cbn [forallb]. unfold bcd_byte_ok, is_digit in *.
+  repeat (apply andb_true_iff; split); try reflexivity; lia.
+Qed.
+Lemma bcd_time_inj : fmt_inj bcd_time.
+Proof.
+  intros l a r Hb H Hw. cbn [enc dec wf bcd_time] in *.
+  destruct (take_e 6 l) as [[b r']|e|] eqn:E; cbn [bind] in H; try discriminate H. inversion H; subst.
+  destruct (take_e_bytes _ _ _ _ Hb E) as (-> & L & Hbb & Hr). split; [|exact Hr]. f_equal.
+  symmetry. apply bcd2time_ok. apply time_ok_bcd6; [exact Hbb | lia | exact Hw].
+Qed.
+
+Lemma vN_inj f : fmt_inj f -> fmt_inj (vN f).
+Proof.
+  intros Hf l v r Hb H Hw. cbn [enc dec wf vN] in *.
+  destruct (dec f l) as [[a r']|e|] eqn:E; cbn [bind] in H; try discriminate H. inversion H; subst. now apply Hf.
+Qed.
+Lemma vB_inj f : fmt_inj f -> fmt_inj (vB f).
+Proof.
+  intros Hf l v r Hb H Hw. cbn [enc dec wf vB] in *.
+  destruct (dec f l) as [[a r']|e|] eqn:E; cbn [bind] in H; try discriminate H. inversion H; subst. now apply Hf.
+Qed.
+Lemma vconst_inj c : fmt_inj (vconst c).
+Proof. intros l v r Hb H _. cbn [enc dec wf vconst] in *. inversion H; subst. auto. Qed.
+Lemma vcheck_inj p f : fmt_inj f -> fmt_inj (vcheck p f).
+Proof.
+  intros Hf l v r Hb H Hw. cbn [enc dec wf vcheck] in *. apply andb_true_iff in Hw. destruct Hw as [Hw _].
+  destruct (dec f l) as [[a r']|e|] eqn:E; cbn [bind] in H; try discriminate H.
+  destruct (p a); inversion H; subst. now apply Hf.
+Qed.
+
+Lemma rep_inj {A} (f : fmt A) : fmt_inj f -> forall k l vs r, bytes l -> rep_dec f k l = Ok (vs, r) ->
+  forallb (wf f) vs = true -> l = rep_enc f vs ++ r /\ bytes r /\ length vs = k.
+Proof.
+  intros Hf. induction k as [|k IH]; intros l vs r Hb H Hw; cbn [rep_dec] in H.
+  - inversion H; subst. auto.
+  - destruct (dec f l) as [[a r1]|e|] eqn:E; cbn [bind] in H; try discriminate H.
+    destruct (rep_dec f k r1) as [[t r2]|e|] eqn:E2; cbn [bind] in H; try discriminate H. inversion H; subst.
+    cbn [forallb] in Hw. apply andb_true_iff in Hw. destruct Hw as [Ha Ht].
+    destruct (Hf _ _ _ Hb E Ha) as [-> Hb1]. destruct (IH _ _ _ Hb1 E2 Ht) as (-> & Hb2 & L).
+    cbn [rep_enc flat_map length]. rewrite <- app_assoc. auto.
+Qed.
+Lemma vrep_inj k f : fmt_inj f -> fmt_inj (vrep k f).
+Proof.
+  intros Hf l v r Hb H Hw. cbn [enc dec wf vrep] in *.
+  destruct (rep_dec f (N.to_nat k) l) as [[vs r']|e|] eqn:E; cbn [bind] in H; try discriminate H. inversion H; subst.
+  apply andb_true_iff in Hw. destruct Hw as [_ Hw]. destruct (rep_inj f Hf _ _ _ _ Hb E Hw) as (-> & Hr & _). auto.
+Qed.
+Lemma vrep_w_inj k w f : fmt_inj f -> fmt_inj (vrep_w k w f).
+Proof.
+  intros Hf l v r Hb H Hw. cbn [enc dec wf vrep_w] in *. destruct (k * w <=? len l); [|discriminate H].
+  now apply (vrep_inj k f Hf).
+Qed.
+
+Definition fields_inj (fs : list field) : Prop := Forall (fun f => forall acc, fmt_inj (f acc)) fs.
+Lemma fields_inj_nil : fields_inj []. Proof. constructor. Qed.
+Lemma fields_inj_cons f fs : (forall acc, fmt_inj (f acc)) -> fields_inj fs -> fields_inj (f :: fs).
+Proof. intros H1 H2. constructor; assumption. Qed.
+Lemma ps_inj fs : fields_inj fs -> forall acc l vs r, bytes l -> ps_dec fs acc l = Ok (vs, r) ->
+  ps_wf fs acc vs = true -> l = ps_enc fs acc vs ++ r /\ bytes r.
+Proof.
+  induction 1 as [|f fs Hf _ IH]; intros acc l vs r Hb H Hw; cbn [ps_dec] in H.
+  - inversion H; subst. auto.
+  - destruct (dec (f acc) l) as [[v r1]|e|] eqn:E; cbn [bind] in H; try discriminate H.
+    destruct (ps_dec fs (acc ++ [v]) r1) as [[t r2]|e|] eqn:E2; cbn [bind] in H; try discriminate H. inversion H; subst.
+    cbn [ps_wf] in Hw. apply andb_true_iff in Hw. destruct Hw as [Hv Ht].
+    destruct (Hf acc _ _ _ Hb E Hv) as [-> Hb1]. destruct (IH _ _ _ _ Hb1 E2 Ht) as (-> & Hb2).
+    cbn [ps_enc]. rewrite <- app_assoc. auto.
+Qed.
+Lemma vstruct_inj fs : fields_inj fs -> fmt_inj (vstruct fs).
+Proof.
+  intros Hf l v r Hb H Hw. cbn [enc dec wf vstruct] in *.
+  destruct (ps_dec fs [] l) as [[vs r']|e|] eqn:E; cbn [bind] in H; try discriminate H. inversion H; subst.
+  now apply (ps_inj fs Hf [] l).
+Qed.
+
+Definition tail_inj (t : tail) : Prop :=
+  forall l vs, bytes l -> tl_dec t l = Ok vs -> tl_wf t vs = true -> tl_enc t vs = l.
+Lemma tl_exact_inj : tail_inj tl_exact.
+Proof. intros l vs _ H _. cbn [tl_dec tl_enc tl_exact] in *. destruct l; [reflexivity|discriminate H]. Qed.
+Lemma tl_rest_inj : tail_inj tl_rest.
+Proof. intros l vs _ H _. cbn [tl_dec tl_enc tl_rest tl_conv] in *. now inversion H. Qed.
+(* a converted rest: needs the codec to be invertible in the other direction too, on what decodes into the domain *)
+Definition codec_inv (cenc cdec : list N -> list N) (cdom : list N -> bool) : Prop :=
+  forall l, bytes l -> cdom (cdec l) = true -> cenc (cdec l) = l.
+Lemma tl_conv_inj cenc cdec cdom : codec_inv cenc cdec cdom -> tail_inj (tl_conv cenc cdec cdom).
+Proof. intros Hc l vs Hb H Hw. cbn [tl_dec tl_enc tl_wf tl_conv] in *. inversion H; subst. now apply Hc. Qed.
+Lemma tl_consts_inj n t cs : tail_inj t -> tail_inj (tl_consts n t cs).
+Proof.
+  intros Ht l vs Hb H Hw. cbn [tl_dec tl_enc tl_wf tl_consts] in *.
+  destruct (tl_dec t l) as [ws|e|] eqn:E; cbn [bind] in H; try discriminate H. inversion H; subst.
+  apply andb_true_iff in Hw. destruct Hw as [Hw H3]. apply andb_true_iff in Hw. destruct Hw as [H1 H2].
+  apply vals_eqb_eq in H3. apply Nat.eqb_eq in H2.
+  assert (length ws = n) as L.
+  { assert (length (skipn n (ws ++ cs)) = length cs) as L1 by now rewrite H3.
+    rewrite skipn_length, app_length in L1. rewrite firstn_length, app_length in H2. lia. }
+  assert (firstn n (ws ++ cs) = ws) as F by (rewrite <- L, firstn_app, Nat.sub_diag, firstn_all; cbn [firstn]; apply app_nil_r).
+  rewrite F in *. now apply Ht.
+Qed.
+
+Definition msg_inj (m : msg) : Prop :=
+  forall b v, bytes b -> m_dec m b = Ok v -> m_wf m v = true -> m_enc m v = b.
+Lemma mk_msg_inj fs t : fields_inj fs -> (forall acc, tail_inj (t acc)) -> msg_inj (mk_msg fs t).
+Proof.
+  intros Hf Ht b v Hb H Hw. cbn [m_enc m_dec m_wf mk_msg] in *.
+  destruct (ps_dec fs [] b) as [[vs r]|e|] eqn:E; cbn [bind] in H; try discriminate H.
+  destruct (tl_dec (t vs) r) as [ws|e|] eqn:E2; cbn [bind] in H; try discriminate H. inversion H; subst.
+  apply andb_true_iff in Hw. destruct Hw as [H1 H2].
+  assert (L : length vs = length fs).
+  { clear -E. revert vs r E. generalize (@nil val) as acc. revert b. induction fs as [|f fs IH]; intros b acc vs r E; cbn [ps_dec] in E.
+    - now inversion E.
+    - destruct (dec (f acc) b) as [[v r1]|e|]; cbn [bind] in E; try discriminate E.
+      destruct (ps_dec fs (acc ++ [v]) r1) as [[t0 r2]|e|] eqn:E2; cbn [bind] in E; try discriminate E. inversion E; subst.
+      cbn [length]. f_equal. eapply IH, E2. }
+  assert (F : firstn (length fs) (vs ++ ws) = vs) by (rewrite <- L, firstn_app, Nat.sub_diag, firstn_all; cbn [firstn]; apply app_nil_r).
+  assert (S : skipn (length fs) (vs ++ ws) = ws) by (rewrite <- L, skipn_app, Nat.sub_diag, skipn_all; reflexivity).
+  rewrite F, S in *. destruct (ps_inj fs Hf [] b vs r Hb E H1) as [-> Hr]. f_equal. now apply Ht.
+Qed.
+Lemma msg_restrict_inj p m : msg_inj m -> msg_inj (msg_restrict p m).
+Proof. intros Hm b v Hb H Hw. cbn [m_enc m_dec m_wf msg_restrict] in *. apply andb_true_iff in Hw. now apply Hm. Qed.
+Lemma msg_guard_inj g m : msg_inj m -> msg_inj (msg_guard g m).
+Proof. intros Hm b v Hb H Hw. cbn [m_enc m_dec m_wf msg_guard] in *. destruct (g b); [now apply Hm|discriminate H]. Qed.
+(* two layouts: additionally, what the parser chose by the body must be what the encoder chooses by the value *)
+Lemma msg_switch_inj sel selv m1 m2 : msg_inj m1 -> msg_inj m2 ->
+  (forall b v, sel b = true -> m_dec m1 b = Ok v -> selv v = true) ->
+  (forall b v, sel b = false -> m_dec m2 b = Ok v -> selv v = false) ->
+  msg_inj (msg_switch sel selv m1 m2).
+Proof.
+  intros H1 H2 S1 S2 b v Hb H Hw. cbn [m_enc m_dec m_wf msg_switch] in *. destruct (sel b) eqn:E.
+  - rewrite (S1 b v E H) in *. now apply H1.
+  - rewrite (S2 b v E H) in *. now apply H2.
+Qed.
+
+Ltac fmt_inj :=
+  repeat first
+    [ assumption
+    | apply fields_inj_nil
+    | apply fields_inj_cons; [intro; cbv beta|]
+    | apply mk_msg_inj; [|intro; cbv beta]
+    | apply msg_restrict_inj | apply msg_guard_inj
+    | apply vstruct_inj
+    | apply vrep_inj | apply vrep_w_inj
+    | apply vN_inj | apply vB_inj | apply vcheck_inj
+    | apply ube_inj | apply bytes_n_inj | apply str_pad_inj
+    | apply bcd_time_inj | apply vconst_inj
+    | apply tl_exact_inj | apply tl_rest_inj
+    | apply tl_consts_inj
+    | apply tl_conv_inj ].
+
 (* ------------------------------------------------------------------ proof automation for compositions *)
 Ltac fmt_ok :=
   repeat first
